@@ -299,6 +299,30 @@ Fixpoint get_adjacent_halfface (faces : list (list Z)) (hfh heh : Z) (hfs : list
 
 Definition nthd (l : list Z) (i : nat) : Z := nth i l (-1).
 
+(* from-vertex of a halfedge OF A STORED FACE (halfedge(heh).from_vertex() in the two hexahedral vertex tests below).  Total:
+   the handles of stored faces were bounded by mk_handle when the face chunk was read (and, with the topology check on, every one
+   of them has been through he_verts in chain_ok), so the index is in range in every state the reader reaches; an out-of-range
+   index reads as -1 here instead of UB *)
+Definition he_from_t (edges : list (Z * Z)) (h : Z) : Z :=
+  match nth_z edges (Z.quot h 2) with
+  | Some (a, b) => if Z.even h then a else b
+  | None => -1
+  end.
+
+Fixpoint cell_from_vertices (edges : list (Z * Z)) (faces : list (list Z)) (hfs : list Z) : R (list Z) :=
+  match hfs with
+  | [] => Ret []
+  | h :: t => do a <- hf_halfedges faces h; do b <- cell_from_vertices edges faces t; Ret (map (he_from_t edges) a ++ b)
+  end.
+
+(* std::set<VertexHandle>::size() *)
+Fixpoint count_distinct_sorted (l : list Z) : Z :=
+  match l with
+  | [] => 0
+  | x :: t => (match t with y :: _ => if x =? y then 0 else 1 | [] => 1 end) + count_distinct_sorted t
+  end.
+Definition count_distinct (l : list Z) : Z := count_distinct_sorted (zsort l).
+
 (* one side of HexahedralMeshTopologyKernel::check_halfface_ordering: offset = -1 until the first match *)
 Fixpoint order_side (faces : list (list Z)) (hfs : list Z) (top : Z) (first4 order : list nat) (hes : list Z) (offset : Z) : R (option Z) :=
   match hes with
@@ -318,7 +342,9 @@ Fixpoint order_side (faces : list (list Z)) (hfs : list Z) (top : Z) (first4 ord
         else Ret None
   end.
 
-Definition check_halfface_ordering (faces : list (list Z)) (hfs : list Z) : R bool :=
+(* since the fix "hex halfface ordering check must require vertex-disjoint top and bottom faces": no from-vertex of the second
+   halfface is a from-vertex of the first *)
+Definition check_halfface_ordering (edges : list (Z * Z)) (faces : list (list Z)) (hfs : list Z) : R bool :=
   do ht <- hf_halfedges faces (nthd hfs 0);
   do hb <- hf_halfedges faces (nthd hfs 1);
   do a <- order_side faces hfs (nthd hfs 0) [2; 4; 3; 5]%nat [2; 4; 3; 5]%nat ht (-1);
@@ -328,7 +354,10 @@ Definition check_halfface_ordering (faces : list (list Z)) (hfs : list Z) : R bo
       do b <- order_side faces hfs (nthd hfs 1) [3; 4; 2; 5]%nat [3; 4; 2; 5]%nat hb (-1);
       match b with
       | None => Ret false
-      | Some o2 => Ret (negb (o2 =? -1))
+      | Some o2 =>
+          if o2 =? -1 then Ret false
+          else let vt := map (he_from_t edges) ht in
+               Ret (forallb (fun h => negb (existsb (fun v => v =? he_from_t edges h) vt)) hb)
       end
   end.
 
@@ -382,13 +411,18 @@ Definition mesh_add_face (o : opts) (edges : list (Z * Z)) (hes : list Z) : R (o
   | MHex => if len hes =? 4 then base_add_face edges hes (o_check o) else Ret None
   end.
 
-Definition mesh_add_cell (o : opts) (faces : list (list Z)) (hfs : list Z) : R (option (list Z)) :=
+Definition mesh_add_cell (o : opts) (edges : list (Z * Z)) (faces : list (list Z)) (hfs : list Z) : R (option (list Z)) :=
   match o_mesh o with
   | MPoly => base_add_cell faces hfs (o_check o)
   | MTet =>
       if len hfs =? 4 then
         do ok <- all_valence faces hfs 3;
-        if ok then base_add_cell faces hfs (o_check o) else Ret None
+        if negb ok then Ret None
+        else if negb (o_check o) then base_add_cell faces hfs false
+        else
+          (* fix "checked tet add_cell must reject four triangles that are not a tetrahedron": exactly four distinct vertices *)
+          do vs <- cell_from_vertices edges faces hfs;
+          if negb (count_distinct vs =? 4) then Ret None else base_add_cell faces hfs true
       else Ret None
   | MHex =>
       if len hfs =? 6 then
@@ -396,7 +430,10 @@ Definition mesh_add_cell (o : opts) (faces : list (list Z)) (hfs : list Z) : R (
         if negb ok then Ret None
         else if negb (o_check o) then base_add_cell faces hfs false
         else
-          do ord <- check_halfface_ordering faces hfs;
+          (* fix "checked hex add_cell must reject cells without eight distinct vertices" *)
+          do vs <- cell_from_vertices edges faces hfs;
+          if negb (count_distinct vs =? 8) then Ret None else
+          do ord <- check_halfface_ordering edges faces hfs;
           if ord then base_add_cell faces hfs true
           else do r <- hex_reorder faces hfs;
                match r with
@@ -405,7 +442,7 @@ Definition mesh_add_cell (o : opts) (faces : list (list Z)) (hfs : list Z) : R (
                    (* "The re-ordering only succeeds for halffaces that really form a hexahedron": every slot is_valid()
                       (idx >= 0), and the re-ordered list passes check_halfface_ordering *)
                    if existsb (fun x => x <? 0) hfs' then Ret None
-                   else do ord2 <- check_halfface_ordering faces hfs';
+                   else do ord2 <- check_halfface_ordering edges faces hfs';
                         if ord2 then base_add_cell faces hfs' true else Ret None
                end
       else Ret None
@@ -578,7 +615,7 @@ Definition read_topo_chunk (o : opts) (h : fhdr) (st : rst) (d : dec) : R (rst *
       else if (h_topo h =? TopoType_Hexahedral) && negb (valence_ok valence vals 6) then state_error S_ErrorInvalidTopoType
       else
         let mk := mk_handle off (2 * r_nfr st) in
-        let add := fun hs (_ : list (list Z)) => mesh_add_cell o (r_faces st) hs in
+        let add := fun hs (_ : list (list Z)) => mesh_add_cell o (r_edges st) (r_faces st) hs in
         do r <- (match vals with
                  | Some vs => rd_items_var vs henc mk add [] d7
                  | None => rd_items_fixed (S (length d7)) count valence henc mk add [] d7
